@@ -7,6 +7,7 @@ import (
 	"errors"
 	"fmt"
 	"io"
+	"math"
 	"math/rand"
 	"slices"
 )
@@ -180,6 +181,7 @@ func (t *Transaction) Write(p []byte) (n int, err error) {
 	copy(t.ParamCount[:], p[20:22])
 
 	scanner := bufio.NewScanner(bytes.NewReader(p[22:tranLen]))
+	scanner.Buffer(nil, minFieldLen+math.MaxUint16) // a field may carry up to 65535 data bytes
 	scanner.Split(FieldScanner)
 
 	for i := 0; i < int(paramCount); i++ {
